@@ -1,6 +1,167 @@
-"""L1: the optional-matrix container (src/derivative.rs) against absent == zero."""
+"""L1: the optional-matrix container (src/derivative.rs): every operation respects  absent == zero."""
 from .common import *
+
+SHAPE = ("R", "C")
+
+
+def deriv(name, present, shape=SHAPE):
+    idx = tuple(s for s, d in zip(("$r", "$c"), shape) if d != "1")
+    m = Mat(Poly.var(name, idx), shape)
+    return Rec("Derivative", {"0": Opt(True, m) if present else Opt(False), "1": PHANTOM})
+
+
+def alpha(v):
+    """abstraction: None -> 0, Some(m) -> m"""
+    v = unref(v)
+    if isinstance(v, Rec) and v.adt == "Derivative":
+        o = unref(v.f["0"])
+        return o.v.p if o.some else Poly()
+    if isinstance(v, Mat):
+        return v.p
+    raise Unsupported("alpha of %r" % (v,))
+
+
+def var_of(name, shape=SHAPE):
+    idx = tuple(s for s, d in zip(("$r", "$c"), shape) if d != "1")
+    return Poly.var(name, idx)
+
+
+BIN = {"Add": lambda s, r: s + r, "Sub": lambda s, r: s - r}
+ASSIGN = {"AddAssign": lambda s, r: s + r, "SubAssign": lambda s, r: s - r}
 
 
 def check_L1(chk, F, tag="container"):
-    pass
+    T = Poly.var("t")
+    n_impls = 0
+    for imp in F.impls.values():
+        if F.adt_name(imp["self"]) != "Derivative" or not imp.get("trait"):
+            continue
+        tr = imp["trait"].split("::")[-1]
+        if tr not in ("Mul", "Div", "Add", "Sub", "Neg", "AddAssign", "SubAssign", "MulAssign", "DivAssign"):
+            continue
+        meth = {"Mul": "mul", "Div": "div", "Add": "add", "Sub": "sub", "Neg": "neg", "AddAssign": "add_assign",
+                "SubAssign": "sub_assign", "MulAssign": "mul_assign", "DivAssign": "div_assign"}[tr]
+        body = F.impl_item(imp, meth)
+        if body is None:
+            continue
+        n_impls += 1
+        sig = body["sig_in"]
+        self_ref = F.ty(sig[0])["k"] == "ref"
+        rhs_kind = None
+        if len(sig) > 1:
+            rhs_kind = "deriv" if F.adt_name(sig[1]) == "Derivative" else "scalar"
+        rhs_ref = len(sig) > 1 and F.ty(sig[1])["k"] == "ref"
+        form = "%s%s<%s%s>" % ("&" if self_ref else "", tr, "&" if rhs_ref else "", {"deriv": "D", "scalar": "T", None: ""}[rhs_kind])
+        loc = body_loc(F, body)
+        if tr == "Mul" and rhs_kind == "deriv":
+            shapes = (("M", "1"), ("1", "N"))
+        else:
+            shapes = (SHAPE, SHAPE)
+        for ps in (True, False):
+            for pr in ((True, False) if rhs_kind == "deriv" else (None,)):
+                key = "%s|%s|presence=%s%s" % (tag, form, "S" if ps else "N", "" if pr is None else ("S" if pr else "N"))
+                s_val = deriv("s", ps, shapes[0])
+                s_al = var_of("s", shapes[0]) if ps else Poly()
+                args = [s_val]
+                if rhs_kind == "deriv":
+                    args.append(deriv("r", pr, shapes[1]))
+                    r_al = var_of("r", shapes[1]) if pr else Poly()
+                elif rhs_kind == "scalar":
+                    args.append(Sc(T))
+                if tr in ASSIGN or tr in ("MulAssign", "DivAssign"):
+                    cell = [s_val]
+                    args[0] = Ref(cell, 0)
+                try:
+                    it = Interp(F, DOMK)
+                    res = it.call_body(body, args)
+                    if tr in ASSIGN:
+                        got, want = alpha(cell[0]), ASSIGN[tr](s_al, r_al)
+                    elif tr == "MulAssign":
+                        got, want = alpha(cell[0]), s_al * T
+                    elif tr == "DivAssign":
+                        got, want = alpha(cell[0]), s_al * T.recip()
+                    elif tr in BIN:
+                        got, want = alpha(res), BIN[tr](s_al, r_al)
+                    elif tr == "Neg":
+                        got, want = alpha(res), -s_al
+                    elif tr == "Mul":
+                        got, want = alpha(res), (s_al * r_al if rhs_kind == "deriv" else s_al * T)
+                    elif tr == "Div":
+                        got, want = alpha(res), s_al * T.recip()
+                    ok = equal(got, want)
+                    chk.ob(key, ok, "container operation respects absent == zero: alpha(result) == op(alpha(operands))",
+                           loc, found=got.show(), required=want.show(), nontrivial=bool(want.t))
+                except Unsupported as ex:
+                    chk.undecide(key, "unsupported: %s" % ex, loc)
+    chk.count("Derivative operator impls", n_impls)
+    # inherent methods
+    for name in ("tr_mul", "unwrap_generic", "some", "none", "new", "map"):
+        bs = F.find_method("Derivative", name, None)
+        if len(bs) != 1:
+            chk.undecide("%s|%s" % (tag, name), "missing anchor: Derivative::%s" % name)
+            continue
+        body = bs[0]
+        loc = body_loc(F, body)
+        chk.count("Derivative inherent methods")
+        try:
+            if name == "tr_mul":
+                sh = ("1", "D")
+                for ps in (True, False):
+                    for pr in (True, False):
+                        it = Interp(F, DOMK)
+                        res = it.call_body(body, [deriv("s", ps, sh), deriv("r", pr, sh)])
+                        want = (Poly.var("s", ("$r",)) * Poly.var("r", ("$c",))) if (ps and pr) else Poly()
+                        got = alpha(res)
+                        chk.ob("%s|tr_mul|presence=%s%s" % (tag, "S" if ps else "N", "S" if pr else "N"), equal(got, want),
+                               "tr_mul is the transposed product and vanishes when either side is absent", loc,
+                               found=got.show(), required=want.show(), nontrivial=bool(want.t))
+            elif name == "unwrap_generic":
+                for ps in (True, False):
+                    it = Interp(F, DOMK, extern=ZEROS)
+                    res = unref(it.call_body(body, [deriv("s", ps), DimV("R"), DimV("C")]))
+                    want = var_of("s") if ps else Poly()
+                    ok = isinstance(res, Mat) and equal(res.p, want) and res.shape == SHAPE
+                    chk.ob("%s|unwrap_generic|presence=%s" % (tag, "S" if ps else "N"), ok,
+                           "unwrapping an absent part yields zeros of the requested shape", loc,
+                           found=repr(res)[:200], required=want.show(), nontrivial=True)
+            elif name == "some":
+                it = Interp(F, DOMK)
+                res = it.call_body(body, [Mat(var_of("s"), SHAPE)])
+                chk.ob("%s|some" % tag, equal(alpha(res), var_of("s")) and unref(unref(res).f["0"]).some,
+                       "some(m) is present with value m", loc, nontrivial=False)
+            elif name == "none":
+                it = Interp(F, DOMK)
+                res = it.call_body(body, [])
+                chk.ob("%s|none" % tag, not unref(unref(res).f["0"]).some, "none() is absent", loc, nontrivial=False)
+            elif name == "map":
+                for ps in (True, False):
+                    it = Interp(F, DOMK)
+                    g = FnV({"path": "g", "name": "neg"})
+                    res = it.call_body(body, [deriv("s", ps), Clo(NEG_CLOSURE, {})])
+                    want = -var_of("s") if ps else Poly()
+                    chk.ob("%s|map|presence=%s" % (tag, "S" if ps else "N"), equal(alpha(res), want),
+                           "map applies the function element-wise and keeps absence", loc, nontrivial=ps)
+        except Unsupported as ex:
+            chk.undecide("%s|%s" % (tag, name), "unsupported: %s" % ex, loc)
+
+
+from ..interp import DimV, Ref, FnV, Clo  # noqa: E402
+
+
+def _zeros(it, args, e):
+    a = [unref(x) for x in args]
+    if len(a) == 2 and all(isinstance(x, DimV) for x in a):
+        return Mat(Poly(), (a[0].name, a[1].name))
+    raise Unsupported("zeros_generic args")
+
+
+ZEROS = {
+    "nalgebra::base::construction::<impl nalgebra::Matrix<T, R, C, <nalgebra::DefaultAllocator as nalgebra::allocator::Allocator<R, C>>::Buffer<T>>>::zeros_generic": _zeros,
+}
+
+# a synthetic closure |x| -x used to probe Derivative::map
+NEG_CLOSURE = {
+    "params": [{"k": "bind", "name": "x", "id": "synthetic.x", "byref": False, "mut": False, "t": 0}],
+    "body": {"k": "un", "op": "-", "t": 0, "l": 0,
+             "a": {"k": "path", "t": 0, "l": 0, "res": {"r": "local", "name": "x", "id": "synthetic.x"}}},
+}
